@@ -9,6 +9,8 @@ package main
 import (
 	"fmt"
 	"net/http"
+	"runtime"
+	"sync"
 	"time"
 
 	req "github.com/imroc/req/v3"
@@ -53,6 +55,11 @@ func (w *world) interleaved() {
 			live = append(live, &liveReader{u: u})
 		}
 		if len(live) < 2 {
+			continue
+		}
+		if g%4 == 3 {
+			// truly concurrent: one goroutine per live response, all on the one transport
+			w.concurrentGroup(t, live)
 			continue
 		}
 		fin := make(chan string, 1)
@@ -111,5 +118,64 @@ func (w *world) interleaved() {
 			w.r.Count(fmt.Sprintf("interleaved:readers=%d", len(live)))
 			w.finish(lr.u, lr.o, true)
 		}
+	}
+}
+
+// concurrentGroup reads every response of the group in its own goroutine at the same time (yielding
+// between reads); each must still come out as when read alone.
+func (w *world) concurrentGroup(t *req.Transport, live []*liveReader) {
+	var wg sync.WaitGroup
+	for _, lr := range live {
+		lr := lr
+		lr.u.BufMode = "concurrent"
+		wg.Add(1)
+		go func() {
+			defer wg.Done()
+			defer func() {
+				if e := recover(); e != nil {
+					lr.o.Fatal = fmt.Sprintf("panic: %v", e)
+				}
+			}()
+			lr.body = newScripted(lr.u.Chunks, lr.u.EOFLast)
+			res := &http.Response{Header: http.Header{}, Body: lr.body}
+			res.Header.Set("Content-Type", lr.u.Doc.CT)
+			runtime.Gosched()
+			t.VerifAutoDecodeResponseBody(res)
+			lr.o.Kind, _, _, _, _ = req.VerifAutoDecodeState(res.Body)
+			for i := 0; ; i++ {
+				if i > maxCallsFor(lr.u) {
+					lr.o.Fatal = "no end of body"
+					break
+				}
+				buf := make([]byte, lr.u.Pattern[0])
+				n, err := res.Body.Read(buf)
+				c := callObs{K: len(buf), N: n, Err: errClass(err)}
+				_, c.Detected, c.HasDec, c.PeekLen, c.PeekNil = req.VerifAutoDecodeState(res.Body)
+				lr.o.Calls = append(lr.o.Calls, c)
+				lr.o.Out = append(lr.o.Out, buf[:n]...)
+				if err != nil {
+					lr.o.EndErr = c.Err
+					break
+				}
+				runtime.Gosched()
+			}
+			res.Body.Close()
+			lr.o.Closed = lr.body.closed
+		}()
+	}
+	done := make(chan struct{})
+	go func() { wg.Wait(); close(done) }()
+	select {
+	case <-done:
+	case <-time.After(60 * time.Second):
+		for _, lr := range live {
+			w.r.Fail(hk.Failure{Sig: "fatal:concurrent-group:hang", What: "concurrently read responses did not finish within 60 s", Input: map[string]interface{}{"case": lr.u}})
+		}
+		return
+	}
+	for _, lr := range live {
+		lr.o.NCalls, lr.o.OutLen = len(lr.o.Calls), len(lr.o.Out)
+		w.r.Count(fmt.Sprintf("concurrent:readers=%d", len(live)))
+		w.finish(lr.u, lr.o, true)
 	}
 }
